@@ -101,7 +101,55 @@ _COMMON = [
     "proleptic Gregorian ordinal; CPython 3.12 error messages) - cross-checked by tools/selftest.py",
     "z3 4.x/5.x soundness",
 ]
+_ZONE = ("ASSUMED CONTRACT on pytz / zoneinfo / tzlocal (pyvc/zone.py): OFF(zone, instant) and LOC(zone, wall) "
+         "are uninterpreted with LOC(z,w) + OFF(z, LOC(z,w)) = w at every use, i.e. unambiguous local times "
+         "(the properties' own side condition; skipped and repeated hours are outside the proofs and are "
+         "exercised by stand-ins); a pytz-aware datetime carries a fixed-offset variant that wall-clock "
+         "arithmetic keeps; localize / normalize / astimezone per the pytz documentation; offsets are whole "
+         "seconds.  Checked only by replaying counter-models / witnesses on real zones")
+_RX = ("ASSUMED: the symbolic backtracking regex matcher (pyvc/rx.py, over the stdlib sre parse tree of the real "
+       "pattern objects) agrees with `regex` / `re` on the patterns it is used with - cross-checked "
+       "differentially by the selftest stand-ins, not proved")
+_STRP = "stdlib `_strptime` is NOT assumed: its Python source is executed symbolically"
+_RD = ("ASSUMED CONTRACT on dateutil.relativedelta: SRelDelta re-implements dateutil 2.9's normalisation and "
+       "addition algorithm (cross-checked on a grid by selftest_reldelta)")
+_FLOAT = ("floats are not modelled: float('12') is carried as the integer 12; decimal counts are outside the proofs "
+          "(stand-ins only)")
+_UNI = ("ASSUMED: unicodedata.normalize / category on skeleton strings (ASCII letters, digits and punctuation are "
+        "fixed points of NFKD; categories by character class); anything else raises Unsupported")
+_EVAL = ("obligations of contracts marked concrete_samples=1 are decided by EVALUATING the real code over a finite "
+         "domain stated in the contract's docstring (exhaustive over that domain), not by the solver")
+_CONV = ("ASSUMED CONTRACT on convertdate.persian / hijridate: uninterpreted conversion functions with month-length "
+         "facts (Persian 31/30/29-30; Hijri 28..31) and results inside the supported Gregorian range - the "
+         "end-to-end stand-in compares with the real converters")
+_FS = ("ASSUMED CONTRACT on open() / pickle: a ghost file system (absent / empty / damaged / intact / other pickle) and "
+       "pickle.load raising any builtin Exception subclass on damage; the real pickle module on real prefixes is a "
+       "stand-in")
+_IND = ("paper argument, not machine-checked: per-call frame conditions and cache postconditions imply history "
+        "independence by induction over the call sequence; the shared-state write-site scan enumerates the state "
+        "that argument has to cover; small-scope bounds (cache shapes <= 3 keys, token lists <= 4)")
+_CLDR = ("the CLDR source shipped in dateparser_data/cldr_language_data is taken as the reference for a locale's own "
+         "date order")
+_STAND = "stand-ins (bounded or finite-domain run-time evaluation on the real library) are reported separately and never counted as discharged obligations"
 TRUSTED_BASE = {
-    "*": _COMMON,
+    "*": _COMMON + [_EVAL, _STAND],
+    "C01": _COMMON + [_RX, _STRP, _ZONE, _UNI, _EVAL, _STAND],
+    "C02": _COMMON + [_RX, _STRP, _ZONE, _EVAL, _STAND],
+    "C03": _COMMON + [_IND, _EVAL, _STAND],
+    "C04": _COMMON + [_RX, _RD, _FLOAT, _ZONE, _UNI, _EVAL, _STAND],
+    "C05": _COMMON + [_RX, _STRP, _EVAL, _STAND],
+    "C06": _COMMON + [_RX, _RD, _FLOAT, _EVAL, _STAND],
+    "C07": _COMMON + [_RX, _STRP, _UNI, _CLDR, _EVAL, _STAND],
+    "C08": _COMMON + [_RX, _STRP, _UNI, _EVAL, _STAND],
+    "C09": _COMMON + [_RX, _STRP, _ZONE, _UNI, _EVAL, _STAND],
+    "C10": _COMMON + [_RX, _STRP, _UNI, _EVAL, _STAND],
+    "C11": _COMMON + [_RX, _ZONE, _FS, _EVAL, _STAND],
+    "C12": _COMMON + [_RX, _ZONE, _EVAL, _STAND],
+    "C13": _COMMON + [_EVAL, _STAND],
+    "C14": _COMMON + [_RX, _STRP, _EVAL, _STAND],
+    "C15": _COMMON + [_RX, _STRP, _CONV, _EVAL, _STAND],
+    "C17": _COMMON + [_EVAL, _STAND],
+    "C18": _COMMON + [_EVAL, _STAND],
+    "C19": _COMMON + [_FS, _EVAL, _STAND],
 }
 EXPLANATION = {}
